@@ -116,7 +116,7 @@ def run_property(prop, tier, seed, replay=None):
     module = getattr(mod, "PROPS_MODULE", "CppUModel.Props." + mod.ID)
     res, out = core.audit(mod.ID, module)
     rep.obligations = res
-    rep.checker_cmd = "lake build %s && lake env lean <#print axioms of every obligation>" % module
+    rep.checker_cmd = "lake build %s && lake env lean <#print axioms of every obligation>" % " ".join(core.props_modules(mod.ID, module))
     forb = core.grep_forbidden()
     broken = ["%s: %s" % (k, v[1]) for k, v in res.items() if not v[0]]
     if forb:
@@ -124,11 +124,12 @@ def run_property(prop, tier, seed, replay=None):
         for k in list(rep.obligations):
             rep.obligations[k] = (False, "forbidden construct in Lean sources: " + forb[0])
     if tier == "thorough" and not broken:
-        ok, o = core.leanchecker(module)
-        rep.checker_cmd += " && lake env leanchecker %s" % module
-        rep.notes.append("leanchecker %s: %s" % (module, "ok" if ok else "FAILED " + o[-300:]))
-        if not ok:
-            broken.append("leanchecker rejects %s" % module)
+        for m_ in core.props_modules(mod.ID, module):
+            ok, o = core.leanchecker(m_)
+            rep.checker_cmd += " && lake env leanchecker %s" % m_
+            rep.notes.append("leanchecker %s: %s" % (m_, "ok" if ok else "FAILED " + o[-300:]))
+            if not ok:
+                broken.append("leanchecker rejects %s" % m_)
     broken += gen_problems
 
     # 3. correspondence + specification oracle on the implementation
